@@ -666,3 +666,160 @@ def setter_null(ctx, res):
                    f"conversion) without comparing it with NULL first: the "
                    f"interpreter crashes instead of raising TypeError")
     res.floor(5)
+
+
+# ---------------------------------------------------------------------------
+# C18.status-checked: a failure status is not discarded on the way to success
+
+STATUS_APIS = {n for n, f in API.items()
+               if f["err"] == "neg" and f["python"]}
+
+
+@rule("C18.status-checked", ["C18", "C13"],
+      "a call whose int status can report a failure raised by user code "
+      "(hashing or comparing a key, a warning turned into an error) does not "
+      "have that status thrown away on a path that then carries on as if the "
+      "call had succeeded: either the status is tested, or the path ends in "
+      "the function's own error return")
+def status_checked(ctx, res):
+    from ..csym import cached_paths, flush_paths
+    facts = get_cfacts(ctx)
+    funcs = list(facts.defined_functions())
+    paths = {f: cached_paths(ctx, facts, f) for f in funcs}
+    flush_paths(ctx)
+    if not STATUS_APIS:
+        raise AnalysisError("no int-status API in the CPython model")
+    n_sites = 0
+    seen = set()
+    for f in sorted(paths):
+        ptr = returns_pointer(facts, f)
+        for p in paths[f] or []:
+            calls = [it for it in p.trace if it[0] == "call"]
+            for it in calls:
+                if it[1] in STATUS_APIS:
+                    key = (f, it[1], it[4])
+                    if key not in seen:
+                        seen.add(key)
+                        n_sites += 1
+                        res.instance(f"{f}:{it[1]}", f"{CREL}:{it[4]}",
+                                     discarded=bool(it[5]))
+                if not (it[1] in STATUS_APIS and it[5]):
+                    continue
+                if p.outcome[0] == "RETURN" and (
+                        (ptr and p.outcome[1] == "0")
+                        or (not ptr and re.fullmatch(r"-\d+", p.outcome[1]))):
+                    continue            # the path reports failure anyway
+                k2 = f"{f}:{it[1]}:status-discarded"
+                if k2 in seen:
+                    continue
+                seen.add(k2)
+                res.violation(
+                    k2, f"{CREL}:{it[4]}",
+                    f"{f} throws away the status of {it[1]}(...) and carries "
+                    f"on to {' '.join(p.outcome)}: when the call fails (an "
+                    f"unhashable or raising key) the exception stays pending "
+                    f"while more Python code is run, and the state the call "
+                    f"was to establish is missing",
+                    [f"{CREL}:{l}" for l in dict.fromkeys(p.lines) if l][-6:])
+    res.floor(10)
+    if n_sites:
+        res.oblige(True, "status-sites", CREL, "")
+
+
+# ---------------------------------------------------------------------------
+# C19.clear-specific: the compiled core swallows only the exceptions it names
+
+CATCH_ALL = {"PyExc_Exception", "PyExc_BaseException"}
+
+# PyErr_Clear() calls that are not under a PyErr_ExceptionMatches(<class>)
+# test, keyed by (function, the call whose failure is being cleared); each
+# was read and is part of the documented behaviour
+UNGUARDED_CLEARS = {
+    ("raise_trait_error", None):
+        "replaces whatever is pending by the TraitError it raises",
+    ("delegate_attr_name_class_name", "PyObject_GetAttr"):
+        "a class without __prefix__: the delegate name is the bare name",
+    ("validate_trait_complex", "PySequence_Contains"):
+        "compound 'enum' alternative: a failing membership test (unhashable "
+        "/ incomparable value) means this alternative does not match",
+    ("validate_trait_complex", "PyDict_GetItemWithError"):
+        "compound 'map' alternative: an unhashable value does not match",
+    ("validate_trait_complex", "validate_trait_tuple_check"):
+        "compound 'tuple' alternative: an item rejected by its validator "
+        "means this alternative does not match",
+    ("validate_trait_complex", "type_converter"):
+        "compound 'cast' alternative: a failed conversion does not match",
+    ("validate_trait_complex", "call_validator"):
+        "compound 'python validator' alternative: documented to try the next "
+        "alternative when the validator raises",
+}
+
+
+@rule("C19.clear-specific", ["C19", "C01"],
+      "every PyErr_Clear() in the compiled core either follows a "
+      "PyErr_ExceptionMatches test for a specific exception class (never "
+      "Exception / BaseException) or is one of the confirmed sites where a "
+      "failed alternative of a compound validator is abandoned: an exception "
+      "raised by user code (a factory, a validator, a default) is not turned "
+      "into a silent success")
+def clear_specific(ctx, res):
+    from ..csym import cached_paths, flush_paths
+    facts = get_cfacts(ctx)
+    from .cown import python_runners
+    runners = set(python_runners(facts))
+    seen = {}
+    for f in sorted(facts.defined_functions()):
+        for p in cached_paths(ctx, facts, f) or []:
+            guard = None          # class matched since the last failing call
+            source = None         # the call whose failure is pending
+            for it in p.trace:
+                if it[0] == "atom":
+                    m = re.fullmatch(r"PyErr_ExceptionMatches\((\w+)\)", it[1])
+                    if m and it[2] is True:
+                        guard = m.group(1)
+                    continue
+                if it[0] != "call":
+                    continue
+                c = it[1]
+                if c == "PyErr_Clear":
+                    key = (f, guard if guard else "-", source)
+                    seen.setdefault(key, it[4])
+                    guard = None
+                    continue
+                if c in ("PyErr_ExceptionMatches", "PyErr_Occurred") \
+                        or c in ("Py_INCREF", "Py_XINCREF", "Py_DECREF", "Py_XDECREF", "Py_CLEAR"):
+                    continue
+                if not ((c in API and API[c]["python"]) or c.startswith("->")
+                        or c in runners):
+                    continue        # cannot replace the pending exception
+                source = c
+                guard = None
+    flush_paths(ctx)
+    used = set()
+    for (f, guard, source), line in sorted(seen.items(),
+                                           key=lambda kv: str(kv[0])):
+        key = f"{f}:{source}:{guard}"
+        res.instance(key, f"{CREL}:{line}")
+        if guard != "-":
+            res.oblige(guard not in CATCH_ALL, f"{f}:{source}:catch-all",
+                       f"{CREL}:{line}",
+                       f"{f} clears any exception that is an instance of "
+                       f"{guard} after {source}(...) failed: an error raised "
+                       f"by the user's code there (not only the expected "
+                       f"'does not apply' signal) is swallowed and the "
+                       f"operation carries on as if nothing had happened")
+            continue
+        k2 = (f, source)
+        if k2 in UNGUARDED_CLEARS:
+            used.add(k2)
+            res.oblige(True, key, "", "")
+        else:
+            res.violation(f"{f}:{source}:unguarded-clear", f"{CREL}:{line}",
+                          f"{f} calls PyErr_Clear() after {source}(...) "
+                          f"without testing which exception is pending: "
+                          f"whatever the call raised is swallowed")
+    missing = set(UNGUARDED_CLEARS) - used
+    if missing:
+        raise AnalysisError(f"confirmed PyErr_Clear sites not found: "
+                            f"{sorted(map(str, missing))}")
+    res.floor(12)
